@@ -582,6 +582,17 @@ func (d decomposed192) log() (bool, decomposed192, int8) {
 		msd *= 10
 	}
 
+	// Just below one the terms exp*ln(10), ln(msd/10) and the series cancel
+	// almost completely and only a few digits of the result survive. There the
+	// value is close enough to one for the series alone, taken on the value
+	// itself instead of on its significand in [1, 10).
+	below1 := exp == -1 && msd == 99
+	if below1 {
+		d.exp--
+		exp = 0
+		msd = 10
+	}
+
 	var trunc int8
 	if msd > 10 {
 		d, trunc = d.quo(decomposed192{
@@ -623,6 +634,10 @@ func (d decomposed192) log() (bool, decomposed192, int8) {
 		sig: uint192{2, 0, 0},
 		exp: 0,
 	}, trunc)
+
+	if below1 {
+		return true, res, trunc
+	}
 
 	neg := false
 	if expNeg {
